@@ -278,6 +278,7 @@ func runC12(w *World, r *Report) {
 	la := NewLockAn(w)
 	cacheCore(w, r, la, true)
 	c12Extra(w, r)
+	c12SizeArithmetic(w, r)
 
 	// R3 key agreement
 	sameKey := func(rule, name string, reqFn, respFn *ssa.Function, cacheField string, reqVar, respVar string) (ssa.Value, ssa.Value) {
@@ -665,4 +666,34 @@ func c12Extra(w *World, r *Report) {
 	} else {
 		r.Undec("R3", "extractHashedPathParams/append", ex.Pos(), "expected one append site, found %d", len(apps))
 	}
+}
+
+// c12SizeArithmetic: the size of a record is converted to a floating point
+// number BEFORE it is scaled to megabytes (an integer division would count
+// every record under 1 KiB as 0 and the bound would never be reached).
+func c12SizeArithmetic(w *World, r *Report) {
+	f := w.Fn(pkgRemedies, "calculateSize")
+	if f == nil {
+		r.Undec("R5", "calculateSize", token.NoPos, "function not found")
+		return
+	}
+	nQ, intQ := 0, 0
+	Instrs(f, func(in ssa.Instruction) {
+		if b, ok := in.(*ssa.BinOp); ok && (b.Op == token.QUO || b.Op == token.SHR) {
+			nQ++
+			if bt, isB := b.X.Type().Underlying().(*types.Basic); !isB || bt.Info()&types.IsFloat == 0 {
+				intQ++
+			}
+		}
+	})
+	okRet := true
+	for _, alt := range ReturnAlts(f, 0) {
+		if !Derives(alt.Val, func(x ssa.Value) bool {
+			c, isC := x.(*ssa.Convert)
+			return isC && strings.Contains(c.X.Type().String(), "int")
+		}) {
+			okRet = false
+		}
+	}
+	r.Check(nQ >= 1 && intQ == 0 && okRet, "R5", "calculateSize/scaled-in-floating-point", f.Pos(), "%d divisions, %d of them on integers; the byte count is converted to float64 first", nQ, intQ)
 }
